@@ -45,7 +45,7 @@ func (p *clientConnPool) GetClientConn(req *http.Request, addr string, dialOnMis
 		// It gets its own connection.
 		traceGetConn(req, addr)
 		const singleUse = true
-		cc, err := p.t.dialClientConn(req.Context(), addr, singleUse)
+		cc, err := p.t.dialClientConn(req.Context(), addr, singleUse, isPlainHTTP(req))
 		if err != nil {
 			return nil, err
 		}
@@ -71,7 +71,7 @@ func (p *clientConnPool) GetClientConn(req *http.Request, addr string, dialOnMis
 			return nil, ErrNoCachedConn
 		}
 		traceGetConn(req, addr)
-		call := p.getStartDialLocked(req.Context(), addr)
+		call := p.getStartDialLocked(req.Context(), addr, isPlainHTTP(req))
 		p.mu.Unlock()
 		<-call.done
 		if shouldRetryDial(call, req) {
@@ -87,6 +87,12 @@ func (p *clientConnPool) GetClientConn(req *http.Request, addr string, dialOnMis
 	}
 }
 
+// isPlainHTTP reports whether req is an http:// request, which the
+// Transport only accepts with AllowHTTP (h2c with prior knowledge).
+func isPlainHTTP(req *http.Request) bool {
+	return req != nil && req.URL != nil && req.URL.Scheme == "http"
+}
+
 // dialCall is an in-flight Transport dial call to a host.
 type dialCall struct {
 	_ incomparable
@@ -97,15 +103,18 @@ type dialCall struct {
 	done chan struct{} // closed when done
 	res  *ClientConn   // valid after done is closed
 	err  error         // valid after done is closed
+
+	// plain is set for an http:// request (h2c): dial without TLS
+	plain bool
 }
 
 // requires p.mu is held.
-func (p *clientConnPool) getStartDialLocked(ctx context.Context, addr string) *dialCall {
+func (p *clientConnPool) getStartDialLocked(ctx context.Context, addr string, plain bool) *dialCall {
 	if call, ok := p.dialing[addr]; ok {
 		// A dial is already in-flight. Don't start another.
 		return call
 	}
-	call := &dialCall{p: p, done: make(chan struct{}), ctx: ctx}
+	call := &dialCall{p: p, done: make(chan struct{}), ctx: ctx, plain: plain}
 	if p.dialing == nil {
 		p.dialing = make(map[string]*dialCall)
 	}
@@ -117,7 +126,7 @@ func (p *clientConnPool) getStartDialLocked(ctx context.Context, addr string) *d
 // run in its own goroutine.
 func (c *dialCall) dial(ctx context.Context, addr string) {
 	const singleUse = false // shared conn
-	c.res, c.err = c.p.t.dialClientConn(ctx, addr, singleUse)
+	c.res, c.err = c.p.t.dialClientConn(ctx, addr, singleUse, c.plain)
 
 	c.p.mu.Lock()
 	delete(c.p.dialing, addr)
